@@ -284,6 +284,24 @@ def build_unitary(gen: list, seed: int) -> tuple:
         h = h / np.linalg.norm(h, 2)
         w, v = np.linalg.eigh(h)
         return (v * np.exp(1j * e * w)) @ v.conj().T, n, 2
+    if k in ('qperm', 'qperm_cx'):
+        # the unitary that moves qubit q to position p[q] (a relabelling of
+        # the wires: costs nothing once the output permutation is free),
+        # optionally preceded by CNOT(0,1); 3-cycles are the smallest qudit
+        # permutations that differ from their inverses
+        p = gen[1]
+        n = len(p)
+        u = np.zeros((2 ** n, 2 ** n))
+        for x in range(2 ** n):
+            bits = [(x >> (n - 1 - q)) & 1 for q in range(n)]
+            y = [0] * n
+            for q in range(n):
+                y[p[q]] = bits[q]
+            u[sum(b << (n - 1 - i) for i, b in enumerate(y)), x] = 1
+        if k == 'qperm_cx':
+            cx = np.eye(4)[[0, 1, 3, 2]]
+            u = u @ np.kron(cx, np.eye(2 ** (n - 2)))
+        return u, n, 2
     if k == 'toffoli':
         return np.eye(8)[[0, 1, 2, 3, 4, 5, 7, 6]], 3, 2
     if k == 'fredkin':
